@@ -1,0 +1,29 @@
+//go:build verif
+
+package tls
+
+import (
+	_ "unsafe" // go:linkname
+
+	"github.com/foxcpp/maddy/framework/hooks"
+)
+
+// Export shims for the verification harness (/verif/harness/tlsloadercheck,
+// extension X11). Nothing here changes the behaviour of the package.
+
+//go:linkname verifHooks github.com/foxcpp/maddy/framework/hooks.hooks
+var verifHooks map[hooks.Event][]func()
+
+// VerifForgetHooks drops every hook registered for hooks.EventReload and
+// hooks.EventShutdown so far. The hook list of framework/hooks is
+// process-global and has no removal; a harness that creates many loaders in
+// one process would otherwise run the hooks of loaders it is done with.
+// Must not be called concurrently with hooks.AddHook/RunHooks.
+func VerifForgetHooks() {
+	delete(verifHooks, hooks.EventReload)
+	delete(verifHooks, hooks.EventShutdown)
+}
+
+// VerifStopChan exposes the channel Close signals the ticker goroutine on (to
+// release goroutines a defect left blocked, so that a test bubble can end).
+func (f *FileLoader) VerifStopChan() chan struct{} { return f.stopTick }
